@@ -688,8 +688,10 @@ def _xreload_module(module, filename, force=False):
     new_mod = types.ModuleType(module.__name__)
     new_mod.__file__ = filename
     new_mod.__doc__ = doc
-    if hasattr(module, "__path__"):
-        new_mod.__path__ = module.__path__
+    for attr in ("__path__", "__package__", "__loader__", "__spec__",
+                 "__cached__"):
+        if hasattr(module, attr):
+            setattr(new_mod, attr, getattr(module, attr))
     MISSING = object()
     saved_mod = sys.modules.get(module.__name__, MISSING)
     try:
